@@ -11,7 +11,8 @@ from .implenv import np, pyPRISM
 from .driver import f2h, fl, h2f
 from pyPRISM.core.Space import Space
 
-TYPES = ['A', 'B', 'C', 'D']
+# deliberately NOT in alphabetical order and not single characters (a table that sorts or assumes 'A','B',.. shows up)
+TYPES = ['poly', 'B', 'solvent', 'D4']
 SPT = {Space.Real: 'R', Space.Fourier: 'F', Space.NonSpatial: 'N', None: 'N'}
 SP = {'R': Space.Real, 'F': Space.Fourier, 'N': Space.NonSpatial}
 
